@@ -207,6 +207,15 @@ def respond (line : String) : String :=
        | none => "ok"
        | some o => s!"bad: observed {o} is none of the {possible.length} possible outcomes {possible}")
     | _, _, _ => "bad-request"
+  | [.atom "sser", tbs, names, schema, v] =>
+    -- the schema-aware serde serializer: bytes and returned count
+    match parseNames names, parseSchema schema, parseSerde v with
+    | some env, some s, some x =>
+      let t : Option Nat := match tbs with | .atom "-" => none | y => atomNat? y
+      (match serS t env bigFuel s x with
+       | .ok (b, n) => s!"ok {hex b} {n}"
+       | .error e => s!"err {e}")
+    | _, _, _ => "bad-request"
   | [.atom "compat", w, r] =>
     match parseSchema w, parseSchema r with
     | some w, some r =>
